@@ -60,6 +60,19 @@ fn dummy(sem: &str) -> DummyDynamicConstraintsEncoder<usize> {
 }
 
 impl DynS {
+    /// the convenience constructors (default SAT solver; `default_factor`: the default reservation factor)
+    fn new_default(kind: &str, factor: f64, default_factor: bool) -> DynS {
+        match kind {
+            "co" => DynS::Co(DynamicCompleteSemanticsSolver::new()),
+            "st" => DynS::St(DynamicStableSemanticsSolver::new()),
+            "pr" => DynS::Pr(DynamicPreferredSemanticsSolver::new()),
+            "co_att" if default_factor => DynS::CoAtt(DynamicCompleteSemanticsSolverAttacks::new()),
+            "st_att" if default_factor => DynS::StAtt(DynamicStableSemanticsSolverAttacks::new()),
+            "co_att" => DynS::CoAtt(DynamicCompleteSemanticsSolverAttacks::new_with_arg_factor(factor)),
+            "st_att" => DynS::StAtt(DynamicStableSemanticsSolverAttacks::new_with_arg_factor(factor)),
+            k => DynS::Dummy(dummy(&k[6..])),
+        }
+    }
     fn new(kind: &str, factor: f64) -> DynS {
         match kind {
             "co" => DynS::Co(DynamicCompleteSemanticsSolver::new_with_sat_solver_factory(rec::factory())),
@@ -151,7 +164,12 @@ pub fn run(_id: &str, p: &HashMap<String, String>, out: &mut Vec<String>) {
     let trace = p.get("trace").map(|s| s != "0").unwrap_or(false);
     rec::reset(0, 200000, "cadical", trace);
     let mut shadow: AAFramework<usize> = AAFramework::default();
-    let mut s = match catch_unwind(AssertUnwindSafe(|| DynS::new(kind, factor))) {
+    let ctor = p.get("ctor").map(|s| s.as_str()).unwrap_or("");
+    let mut s = match catch_unwind(AssertUnwindSafe(|| match ctor {
+        "new" => DynS::new_default(kind, factor, true),
+        "new_factor" => DynS::new_default(kind, factor, false),
+        _ => DynS::new(kind, factor),
+    })) {
         Ok(s) => s,
         Err(e) => {
             out.push(format!("panic {}", util::panic_msg(e)));
